@@ -1,6 +1,8 @@
 SPECIFICATION FairSpec
 CONSTANTS MaxLen = 3 MaxN = 0 Infinite = TRUE MaxOut = 100
+  Vals = "nat" Stops = FALSE MaxRuns = 1
   Alphabet <- AlphaLive
+  Must <- NoMust
   Pairs <- OnlyPairs
 PROPERTY TerminatesIfSliced
 CONSTRAINT Bounded
